@@ -117,6 +117,10 @@ func (b *refBuilder) spellFileRef(fromDir, target string) string {
 	if b.resExt {
 		noext = strings.TrimSuffix(strings.TrimSuffix(rel, ".json"), ".yaml")
 	}
+	if b.resExt && rapid.IntRange(0, 9).Draw(b.t, "noext") < 4 {
+		b.modes["path.no_extension"]++
+		return noext
+	}
 	switch rapid.IntRange(0, 6).Draw(b.t, "refspelling") {
 	case 0:
 		b.modes["path.relative"]++
@@ -269,9 +273,10 @@ func (b *refBuilder) factor(f *model.File, root *model.Node, depth int, maxPick 
 		for _, s := range mine {
 			*s.ptr = &model.Node{Kind: model.KRef, Ref: ref, Target: n}
 		}
-		if depth < 2 && n.Kind == model.KObject && rapid.Bool().Draw(b.t, "recurse") {
-			if b.factor(home, n, depth+1, 2) > 0 && home != f {
-				b.modes["hops.two"]++
+		if depth < 2 && n.Kind == model.KObject && rapid.IntRange(0, 9).Draw(b.t, "recurse") < 7 {
+			before := b.nfile
+			if b.factor(home, n, depth+1, 2) > 0 && home != f && b.nfile > before {
+				b.modes["hops.two_files"]++
 			}
 		}
 	}
@@ -287,6 +292,37 @@ func hasLocalRef(n *model.Node) bool {
 		}
 	})
 	return found
+}
+
+// forceChain builds a two-hop chain main -> dirA/extA -> dirA/dirB/extB where
+// the second reference is written relative to the intermediate file.
+func (b *refBuilder) forceChain(R *model.File, mainDir string) int {
+	for i := len(R.Root.Props) - 1; i >= 0; i-- {
+		N := R.Root.Props[i].Node
+		if N.Kind != model.KObject || N.Nullable || N.Default != nil || len(N.Props) == 0 {
+			continue
+		}
+		for j := len(N.Props) - 1; j >= 0; j-- {
+			M := N.Props[j].Node
+			if M.Kind != model.KObject || M.Nullable || M.Default != nil || len(M.Props) == 0 || hasLocalRef(M) {
+				continue
+			}
+			b.nfile += 2
+			dirA := path.Join(mainDir, fmt.Sprintf("ca%d", b.nfile))
+			dirB := path.Join(dirA, "deep")
+			if rapid.Bool().Draw(b.t, "chainup") {
+				dirB = mainDir // second hop goes back up, relative to the intermediate file
+			}
+			fa := &model.File{RelPath: path.Join(dirA, fmt.Sprintf("exta%d.json", b.nfile)), ID: fmt.Sprintf("https://example.com/exta%d", b.nfile), Root: N}
+			fb := &model.File{RelPath: path.Join(dirB, fmt.Sprintf("extb%d.json", b.nfile)), ID: fmt.Sprintf("https://example.com/extb%d", b.nfile), Root: M}
+			N.Props[j].Node = &model.Node{Kind: model.KRef, Ref: relPath(dirA, fb.RelPath), Target: M}
+			R.Root.Props[i].Node = &model.Node{Kind: model.KRef, Ref: relPath(mainDir, fa.RelPath), Target: N}
+			b.files = append(b.files, fa, fb)
+			b.modes["hops.forced_chain"]++
+			return 1
+		}
+	}
+	return 0
 }
 
 func inlineProfile(c *core.Ctx) *sgen.Profile {
@@ -431,6 +467,19 @@ func TestC10(t *testing.T) {
 				S.Root.Props = append(S.Root.Props, model.Prop{Name: fmt.Sprintf("dup%d", i), Node: n})
 			}
 		}
+		wantChain := rapid.IntRange(0, 9).Draw(rt, "forcechain") < 4
+		if wantChain {
+			// make sure S has an object inside an object at root level
+			ctx := &sgen.Ctx{P: prof}
+			outer := ctx.Object(rt, 2)
+			outer.Nullable = false
+			inner := ctx.Object(rt, 2)
+			inner.Nullable = false
+			outer.Props = append(outer.Props, model.Prop{Name: "inner", Node: inner})
+			outer.Required = append(outer.Required, "inner")
+			S.Root.Props = append(S.Root.Props, model.Prop{Name: "chain", Node: outer})
+			S.Root.Required = append(S.Root.Required, "chain")
+		}
 		cfg := baseConfig()
 		rb := &refBuilder{c: c, t: rt, modes: modes}
 		if rapid.IntRange(0, 2).Draw(rt, "resext") == 0 {
@@ -445,7 +494,11 @@ func TestC10(t *testing.T) {
 		R.Root = model.Clone(S.Root)
 		R.Spelling.LegacyDefs = rapid.Bool().Draw(rt, "mainlegacy")
 		rb.files = []*model.File{R}
-		n := rb.factor(R, R.Root, 0, 4)
+		forced := 0
+		if wantChain {
+			forced = rb.forceChain(R, mainDir)
+		}
+		n := rb.factor(R, R.Root, 0, 4) + forced
 		if n == 0 {
 			c.Count("pair.nothing_to_factor")
 			return
